@@ -395,8 +395,11 @@ def translate_group(g):
         if k == "tri":
             G = _join(G, ("bgp", [T(tp) for tp in x[1]]))
         elif k == "opt":
+            # §18.2.2.6: Translate(P) is a Filter exactly when P itself has FILTER elements (Join(Z, A) = A is applied
+            # only after the whole translation, so the filter of a NESTED group `{ { … FILTER } }` is not hoisted)
             A = translate_group(x[1])
-            if A[0] == "filter":
+            if any(y[0] == "filter" for y in x[1][1]):
+                assert A[0] == "filter"
                 G = ("leftjoin", G, A[2], A[1])
             else:
                 G = ("leftjoin", G, A, ("const", ("t", True)))
